@@ -363,11 +363,55 @@ pub fn enumerate(family: &str, thorough: bool, f: &mut dyn FnMut(&str, Vec<u8>))
                 }
             }
         }
+        "invocations" => {
+            // function block invocations: a callee with 0..3 inputs, 0..3 in-outs and 0..2 outputs, called with
+            // 0..8 positional arguments, with every named subset, and with a mixture; and the same for a function
+            let maxv = if thorough { 3 } else { 2 };
+            for i in 0..=maxv {
+                for o in 0..=maxv {
+                    for q in 0..=2usize {
+                        let mut callee = String::from("FUNCTION_BLOCK Callee ");
+                        if i > 0 {
+                            callee.push_str(&format!("VAR_INPUT {} END_VAR ", (0..i).map(|k| format!("a{} : INT ;", k)).collect::<Vec<_>>().join(" ")));
+                        }
+                        if o > 0 {
+                            callee.push_str(&format!("VAR_IN_OUT {} END_VAR ", (0..o).map(|k| format!("io{} : INT ;", k)).collect::<Vec<_>>().join(" ")));
+                        }
+                        if q > 0 {
+                            callee.push_str(&format!("VAR_OUTPUT {} END_VAR ", (0..q).map(|k| format!("q{} : INT ;", k)).collect::<Vec<_>>().join(" ")));
+                        }
+                        callee.push_str("END_FUNCTION_BLOCK ");
+                        let names: Vec<String> = (0..i).map(|k| format!("a{}", k)).chain((0..o).map(|k| format!("io{}", k))).collect();
+                        let mut calls: Vec<String> = vec![];
+                        for n in 0..=(i + o + 2) {
+                            calls.push((0..n).map(|_| "x".to_string()).collect::<Vec<_>>().join(" , "));
+                            if q > 0 {
+                                calls.push((0..n).map(|_| "x".to_string()).chain(std::iter::once("q0 => x".to_string())).collect::<Vec<_>>().join(" , "));
+                            }
+                        }
+                        for mask in 0u32..(1 << names.len()) {
+                            let picked: Vec<String> = names.iter().enumerate().filter(|(k, _)| mask & (1 << k) != 0).map(|(_, nm)| format!("{} := x", nm)).collect();
+                            calls.push(picked.join(" , "));
+                            if q > 0 {
+                                calls.push(picked.iter().cloned().chain(std::iter::once("q0 => x".to_string())).collect::<Vec<_>>().join(" , "));
+                            }
+                            if !picked.is_empty() {
+                                calls.push(format!("{} , x", picked.join(" , ")));
+                                calls.push(format!("x , {}", picked.join(" , ")));
+                            }
+                        }
+                        for c in calls {
+                            f("function-block-invocation", format!("{}FUNCTION_BLOCK Host VAR inst : Callee ; x : INT ; END_VAR inst ( {} ) ; END_FUNCTION_BLOCK", callee, c).into_bytes());
+                        }
+                    }
+                }
+            }
+        }
         _ => panic!("unknown family {}", family),
     }
 }
 
-pub const FAMILIES: [&str; 12] = ["edit1", "edit2", "bytes", "tokens", "nesting", "size", "literals", "bodies", "graphs", "truncate", "resources", "long-tokens"];
+pub const FAMILIES: [&str; 13] = ["edit1", "edit2", "bytes", "tokens", "nesting", "size", "literals", "bodies", "graphs", "truncate", "resources", "long-tokens", "invocations"];
 
 fn decode(bytes: &[u8]) -> String {
     match std::str::from_utf8(bytes) {
@@ -624,7 +668,7 @@ fn run_slice(family: &str, thorough: bool, start: usize, end: usize, stride: usi
 
 pub fn run(ctx: &mut Ctx) {
     let thorough = ctx.tier.thorough();
-    ctx.rule = "families: edit1 (every host x every token position x {delete, duplicate, swap, replace by / insert each lexeme of the alphabet}), edit2 (every pair of alphabet lexemes inserted at positions of small hosts), bytes (every byte string of length <= 2; thorough: length 3 over a 70-byte alphabet), tokens (every token string of length <= 2, spaced and abutting; thorough: length 3), nesting (19 constructors x depth 1..12 x {valid, bad core, missing closer}), size (18 inputs of ~64 KiB), literals (the C09 space and numeric extremes in 10 other positions); distinct = inputs are distinct by construction (counted); bodies (every string up to length 4, thorough 5, over the characters that are special inside a single- or double-quoted string, a comment, a duration, a based integer, a direct address, a number and a date-and-time literal, in that context); graphs (every reference graph among up to 4 declarations, cyclic ones included); truncate (every prefix of every host that ends after a lexeme, bare and followed by a line end, a comment, an opened comment, an opened string); resources (every file of compiler/resources/test as it is, cut after every line, and with every single line removed); long-tokens (a syntax error at a string or comment of 1 to 130 characters, thorough 300, ending in a multi-byte, control or zero-width character)".into();
+    ctx.rule = "families: edit1 (every host x every token position x {delete, duplicate, swap, replace by / insert each lexeme of the alphabet}), edit2 (every pair of alphabet lexemes inserted at positions of small hosts), bytes (every byte string of length <= 2; thorough: length 3 over a 70-byte alphabet), tokens (every token string of length <= 2, spaced and abutting; thorough: length 3), nesting (19 constructors x depth 1..12 x {valid, bad core, missing closer}), size (18 inputs of ~64 KiB), literals (the C09 space and numeric extremes in 10 other positions); distinct = inputs are distinct by construction (counted); bodies (every string up to length 4, thorough 5, over the characters that are special inside a single- or double-quoted string, a comment, a duration, a based integer, a direct address, a number and a date-and-time literal, in that context); graphs (every reference graph among up to 4 declarations, cyclic ones included); truncate (every prefix of every host that ends after a lexeme, bare and followed by a line end, a comment, an opened comment, an opened string); resources (every file of compiler/resources/test as it is, cut after every line, and with every single line removed); long-tokens (a syntax error at a string or comment of 1 to 130 characters, thorough 300, ending in a multi-byte, control or zero-width character); invocations (a callee with 0..2, thorough 3, inputs and in-outs and 0..2 outputs x every positional argument count, every named subset, with and without an output, and mixtures)".into();
     ctx.assumptions.push(format!("each input runs tokenize, parse, and if it parses analyze and render, under catch_unwind on a thread with an 8 MiB stack in a worker process; budget {} s per input; the build has overflow checks and debug assertions on", BUDGET.as_secs()));
     ctx.assumptions.push("byte strings that are not UTF-8 are decoded as Latin-1 (the file reader falls back to Windows-1252, which differs only in 0x80-0x9F, all of which the lexer treats alike)".into());
     ctx.bounds.insert("alphabet_lexemes".into(), json!(alphabet().len()));
